@@ -343,6 +343,7 @@ _COMBINATORS = {
     "option::Option::<T>::map_or": (_OPT, "Some", True, 2, None, ("arg", 1)),
     "option::Option::<T>::unwrap_or_else": (_OPT, "None", False, 1, None, ("payload",)),
     "option::Option::<T>::ok_or_else": (_OPT, "None", False, 1, (_RES, "Err"), ("rewrap", _RES, "Ok")),
+    "option::Option::<T>::or_else": (_OPT, "None", False, 1, None, ("rewrap", _OPT, "Some")),
     "result::Result::<T, E>::map": (_RES, "Ok", True, 1, (_RES, "Ok"), ("rewrap", _RES, "Err")),
     "result::Result::<T, E>::map_err": (_RES, "Err", True, 1, (_RES, "Err"), ("rewrap", _RES, "Ok")),
     "result::Result::<T, E>::and_then": (_RES, "Ok", True, 1, None, ("rewrap", _RES, "Err")),
